@@ -801,14 +801,28 @@ func (e *Env) call(n *ast.CallExpr) (Val, types.Type, error) {
 			return Val{}, nil, errf("athead: loop ordinal must be a literal")
 		}
 		for _, li := range e.fr.loops {
-			if li.ord == int(kk.Int64()) && li.headState != nil {
-				sub := e.child()
+			if li.ord != int(kk.Int64()) {
+				continue
+			}
+			sub := e.child()
+			if li.headState != nil {
 				sub.st = li.headState
 				sub.pos = li.pos
-				return sub.expr(n.Args[1])
 			}
+			// (no head state: discovery pass of the loop, whose results are rolled back — evaluate in the current state)
+			// the hidden range index of that loop is nameable inside athead as in the loop's own clauses
+			for _, in := range li.header.Instrs {
+				if s, ok := in.(*ssa.Store); ok {
+					if a, ok := s.Addr.(*ssa.Alloc); ok && a.Comment == "rangeindex" {
+						if v, ok := sub.st.cells[a]; ok {
+							sub.vars["rangeidx"] = v
+							sub.vtypes["rangeidx"] = types.Typ[types.Int]
+						}
+					}
+				}
+			}
+			return sub.expr(n.Args[1])
 		}
-		// discovery pass of the loop (its results are rolled back): no head state yet, evaluate in the current state
 		return e.expr(n.Args[1])
 	case "old":
 		if e.old == nil {
